@@ -226,13 +226,20 @@ func (r *Transport) writeLoop() {
 					r.logger.Infof(r.ctx, "Reconnecting in write loop due to error: %v", err)
 					r.mu.Lock()
 					if reconnectErr := r.reconnect(tr); reconnectErr != nil {
-						r.mu.Unlock()
 						r.writeResMu.RLock()
 						resCh := r.writeResCh[data.id]
 						r.writeResMu.RUnlock()
-						writeOrDone(r.ctx, writeRes{err: fmt.Errorf("reconnect cause[%v]: %w", err, reconnectErr)}, resCh)
-						// reconnect attempts exhausted: fail pending and later reads/writes instead of blocking them
+						if resCh != nil {
+							select { // the writer's channel has room for its one result
+							case resCh <- writeRes{err: fmt.Errorf("reconnect cause[%v]: %w", err, reconnectErr)}:
+							default:
+							}
+						}
+						// reconnect attempts exhausted: fail pending and later reads/writes instead of blocking them.
+						// Cancel before the mutex is released: the read loop, waiting for it to redial the same broken
+						// connection, must not spend a second budget on this outage.
 						r.cancel()
+						r.mu.Unlock()
 						return
 					}
 					r.mu.Unlock()
@@ -272,10 +279,14 @@ func (r *Transport) readLoop() {
 				r.logger.Infof(r.ctx, "Reconnecting in read loop due to error: %v", err)
 				r.mu.Lock()
 				if reconnectErr := r.reconnect(tr); reconnectErr != nil {
-					r.mu.Unlock()
-					writeOrDone(r.ctx, &readRes{err: fmt.Errorf("reconnect cause[%v]: %w", err, reconnectErr)}, r.readResCh)
-					// reconnect attempts exhausted: fail pending and later reads/writes instead of blocking them
+					select {
+					case r.readResCh <- &readRes{err: fmt.Errorf("reconnect cause[%v]: %w", err, reconnectErr)}:
+					default:
+					}
+					// reconnect attempts exhausted: fail pending and later reads/writes instead of blocking them.
+					// Cancel before the mutex is released (see writeLoop): one budget per outage.
 					r.cancel()
+					r.mu.Unlock()
 					return
 				}
 				r.mu.Unlock()
